@@ -104,7 +104,7 @@ func isIdent(c byte) bool {
 
 // Leaf is a protobuf leaf field reachable from a message type.
 type Leaf struct {
-	Path     string // canonical path, e.g. p0.TxInputs[].RefTxid
+	Path     string   // canonical path, e.g. p0.TxInputs[].RefTxid
 	Repeated []string // canonical paths of the repeated fields on the way (need a length prefix)
 }
 
@@ -173,9 +173,9 @@ type Coverage struct {
 	WholeOK   bool
 	NeedLen   bool
 	Excluded  map[string]string
-	CondFor   func(path string) []Cond // required guards (besides loop conditions)
+	CondFor   func(path string) []Cond       // required guards (besides loop conditions)
 	AllowCond func(path string, g Cond) bool // extra guards tolerated (e.g. `len(x) > 0` omissions of the v1 encoding)
-	Extra     []Enc // encodes performed by helper functions, already rewritten to Root
+	Extra     []Enc                          // encodes performed by helper functions, already rewritten to Root
 }
 
 func (c *Ctx) FieldCoverage(fn *ssa.Function, cv Coverage) {
